@@ -55,7 +55,10 @@ def variants_for(sc, rng, tier):
     if tier != "quick":
         vs += [("hash", {"PYTHONHASHSEED": "2"}, {}), ("clock", {}, {"vclock": {"pc_step": 1e-7, "wall": 0.0, "wall_step": 1e6}}),
                ("clock", {"PYTHONHASHSEED": "7"}, {"vclock": {"pc_step": 0.002, "wall": 2.0e9, "wall_step": 0.0}, "jitter": 5})]
-    vs.append(("now-unset", {}, {"now_none": True, "datetime_shift_days": rng.choice([-60, 400])}))
+    # ctx.now unset (the run_smoke_turn shape): the wall-clock date is placed near the scenario's logical clock in the
+    # baseline and 45 / 400 days away from it in the variant - the logical clock (now_ms) is the same in both
+    base_ms = sc["turns"][0]["now_ms"]
+    vs.append(("now-unset", {}, {"now_none": True, "datetime_target_ms": base_ms + rng.choice([45, -45, 400]) * 86400000}))
     return vs
 
 
@@ -115,7 +118,7 @@ def check_scenario(sc, sess: Session, rng, tier):
         base = rb
         if name == "now-unset":
             if ref_now is None:
-                r0 = par.run_py("vlib.replayworker", {"scenario": sc, "variant": {"now_none": True, "datetime_shift_days": 0}}, env={"PYTHONHASHSEED": "0"}, timeout=300)
+                r0 = par.run_py("vlib.replayworker", {"scenario": sc, "variant": {"now_none": True, "datetime_target_ms": sc["turns"][0]["now_ms"]}}, env={"PYTHONHASHSEED": "0"}, timeout=300)
                 if not r0["ok"]:
                     continue
                 ref_now = to_bundle(r0["out"])
